@@ -1,17 +1,38 @@
-import IstioModel.C15.Derive
+import IstioModel.C15.ColdStart
 
 /-! Decidability of the hypotheses of the C15 theorems (so that concrete histories can be checked
     against them by kernel evaluation: non-vacuity examples). -/
 namespace IstioModel.C15
 
-instance (c : Ctl) : Decidable (NoCachedAddr c) := by unfold NoCachedAddr; exact inferInstance
-
 instance (c : Ctl) (h : String) (a b : Option Svc) : Decidable (SvcIrrelevant c h a b) := by
   unfold SvcIrrelevant; exact inferInstance
+
+instance (c : Ctl) (ns name : String) : Decidable (Unreferenced c ns name) := by
+  unfold Unreferenced; exact inferInstance
+
+instance (c : Ctl) (o : Option Pod) (v : Pod) : Decidable (NoRecompute c o v) := by
+  unfold NoRecompute; exact inferInstance
 
 instance (c : Ctl) (v : Pod) : Decidable (PodGood c v) := by
   unfold PodGood
   cases findPod c.pods v.ns v.name <;> exact inferInstance
+
+instance (st : StaleSet) (x : Slice) : Decidable (StaleP st x) := by unfold StaleP; exact inferInstance
+
+instance (c : Ctl) (st : StaleSet) (v : Pod) : Decidable (LabelFree c st v) := by
+  unfold LabelFree; exact inferInstance
+
+instance (pods : List Pod) : Decidable (PodKeysOK pods) := by unfold PodKeysOK; exact inferInstance
+
+instance (c : Ctl) (v : Pod) : Decidable (PodIPStable c v) := by
+  unfold PodIPStable
+  cases findPod c.pods v.ns v.name with
+  | none => exact isTrue (fun _ h => by cases h)
+  | some o =>
+    exact decidable_of_iff (o.ip = "" ∨ v.ip = "" ∨ v.ip = o.ip)
+      ⟨fun h o' e => by cases e; exact h, fun h => h o rfl⟩
+
+instance (c : Ctl) : Decidable (NoPodAtUntargeted c) := by unfold NoPodAtUntargeted; exact inferInstance
 
 instance (c : Ctl) (v : Pod) : Decidable (PodLabelGood c v) := by
   unfold PodLabelGood
@@ -19,9 +40,6 @@ instance (c : Ctl) (v : Pod) : Decidable (PodLabelGood c v) := by
 
 instance (c : Ctl) (v : Slice) : Decidable (SliceKeepsWaiting c v) := by
   unfold SliceKeepsWaiting; exact inferInstance
-
-instance (c : Ctl) (ns name : String) : Decidable (PodDelGood c ns name) := by
-  unfold PodDelGood; exact inferInstance
 
 /-- `WF` as a conjunction of bounded quantifications -/
 def WFc (c : Ctl) : Prop :=
@@ -47,19 +65,15 @@ instance (o : Option Ctl) (P : Ctl → Prop) [∀ c, Decidable (P c)] : Decidabl
   | none => isTrue (fun _ h => by cases h)
   | some c => decidable_of_iff (P c) ⟨fun h c' e => by cases e; exact h, fun h => h c rfl⟩
 
-instance (c : Ctl) (op : Op) : Decidable (GoodStep c op) := by
+instance (c : Ctl) (st : StaleSet) (op : Op) : Decidable (GoodStep c st op) := by
   cases op <;> unfold GoodStep <;> exact inferInstance
 
-instance decAllGood : (c : Ctl) → (ops : List Op) → Decidable (AllGood c ops)
-  | _, [] => isTrue trivial
-  | c, o :: r =>
-    have : Decidable (AllGood ((stepC c o).getD c) r) := decAllGood _ r
+instance decAllGood : (c : Ctl) → (st : StaleSet) → (ops : List Op) → Decidable (AllGood c st ops)
+  | _, _, [] => isTrue trivial
+  | c, st, o :: r =>
+    have : Decidable (AllGood ((stepC c o).getD c) (if (stepC c o).isSome then staleStep c st o else st) r) :=
+      decAllGood _ _ r
     by unfold AllGood; exact inferInstance
-
-instance (c : Ctl) : Decidable (NoPodAtUntargeted c) := by unfold NoPodAtUntargeted; exact inferInstance
-
-instance (c : Ctl) (h : String) (sv : Svc) : Decidable (DistinctEps c h sv) := by
-  unfold DistinctEps; exact inferInstance
 
 instance (c : Ctl) : Decidable (NodesUnique c) := by unfold NodesUnique; exact inferInstance
 
@@ -76,21 +90,31 @@ theorem sameObjects_of_b {c d : Ctl} (h : SameObjectsB c d) : SameObjects c d :=
   ⟨fun x => ⟨h.1.1 x, h.1.2 x⟩, fun x => ⟨h.2.1.1 x, h.2.1.2 x⟩, fun x => ⟨h.2.2.1.1 x, h.2.2.1.2 x⟩,
    fun x => ⟨h.2.2.2.1 x, h.2.2.2.2 x⟩⟩
 
-/-- decidable form of the `DistinctEps` hypothesis -/
-def DistinctB (c : Ctl) (h : String) : Prop :=
-  match c.svcs.find? (fun sv => sv.host = h) with
-  | none => True
-  | some sv => DistinctEps c h sv
+/-! ### the cold start -/
 
-instance (c : Ctl) (h : String) : Decidable (DistinctB c h) := by
-  unfold DistinctB
-  cases c.svcs.find? (fun sv => sv.host = h) <;> exact inferInstance
+instance (c : Ctl) (op : Op) : Decidable (ColdOp c op) := by
+  cases op <;> unfold ColdOp <;> exact inferInstance
 
-theorem distinct_of_b {c : Ctl} {h : String} (hb : DistinctB c h) :
-    ∀ sv, c.svcs.find? (fun sv => sv.host = h) = some sv → DistinctEps c h sv := by
-  intro sv hf
-  unfold DistinctB at hb
-  rw [hf] at hb
-  exact hb
+instance decColdOps : (c : Ctl) → (objs : List Op) → Decidable (ColdOps c objs)
+  | _, [] => isTrue trivial
+  | c, o :: r =>
+    have : Decidable (ColdOps (coldWrite c o).1 r) := decColdOps _ r
+    by unfold ColdOps; exact inferInstance
+
+instance (F : Ctl) : Decidable (ColdHyp F) :=
+  decidable_of_iff (WF F ∧ PodKeysOK F.pods ∧ NoPodAtUntargeted F ∧ ∀ n ∈ F.nss, n.td = false)
+    ⟨fun h => ⟨h.1, h.2.1, h.2.2.1, h.2.2.2⟩, fun h => ⟨h.wf, h.keys, h.nopod, h.notd⟩⟩
+
+instance (a : Ev) : Decidable (∃ x, a = Ev.slAdd x) := by
+  cases a with
+  | slAdd x => exact isTrue ⟨x, rfl⟩
+  | _ => exact isFalse (by intro ⟨x, h⟩; cases h)
+
+instance (a : Ev) : Decidable (∃ x, a = Ev.svcAdd x) := by
+  cases a with
+  | svcAdd x => exact isTrue ⟨x, rfl⟩
+  | _ => exact isFalse (by intro ⟨x, h⟩; cases h)
+
+instance (E : List Ev) : Decidable (SvcBeforeSlice E) := by unfold SvcBeforeSlice; exact inferInstance
 
 end IstioModel.C15
